@@ -117,3 +117,5 @@ func verifTV(c system.Collection) int {
 	}
 	return 4
 }
+
+var verifArithOps = []func(system.Any, system.Any) (system.Any, error){EvaluateAdd, EvaluateSub, EvaluateMul, EvaluateDiv, EvaluateFloorDiv, EvaluateMod}
